@@ -303,7 +303,8 @@ macro_rules! c06_cfg {
                 }
             }
             // prove + verify with the real prover/verifier
-            let cfg = ProverCfg { npo: BuilderOpts { poseidon: true, recompose: true }, ..ProverCfg::default() };
+            // the recompose tables packed 1, 2 or 3 operations per row, by case seed
+            let cfg = ProverCfg { npo: BuilderOpts { poseidon: true, recompose: true }, recompose_lanes: [1usize, 2, 3][(seed % 3) as usize], ..ProverCfg::default() };
             let accepted = (|| -> Result<(), pipe::Fail> {
                 let (keys, info) = pipe::keygen::<$uni>(&circuit, &cfg)?;
                 let proof = pipe::prove::<$uni>(&keys, &traces, &cfg, None)?;
